@@ -27,20 +27,22 @@ class Scripted(System):
     """A system that logs its own execution and then performs its script through the public API."""
 
     def __init__(self, world, obj, prio, start, end, freq, script):
-        super().__init__(obj[0], world.model, priority=prio, frequency=freq, start=start, end=_end_to_py(end))
+        # every third object is a "bridge" system bound to ANOTHER (running) model although it is registered with this one
+        owner = world.model if obj[1] % 3 else Model()
+        super().__init__(obj[0], owner, priority=prio, frequency=freq, start=start, end=_end_to_py(end))
         self.world = world
         self.obj = obj
         self.script = script
 
     def execute(self):
         w = self.world
-        w.events.append({"op": "run", "obj": list(self.obj), "t": self.model.systems.timestep})
+        w.events.append({"op": "run", "obj": list(self.obj), "t": w.model.systems.timestep})
         for act in self.script:
             kind = act[0]
             if kind == "remove":
                 w.remove(act[1])
             elif kind == "clean_up":
-                w.remove(self.id, via=self)
+                w.remove(self.id, via=self if self.model is w.model else None)
             elif kind == "add":
                 _, obj, prio, win, script = act
                 w.add(tuple(obj), prio, tuple(win), script)
@@ -138,11 +140,13 @@ class SchedWorld:
                 (self.model.systems.executeSystems if ALIAS[0] else self.model.systems.execute_systems)()
             elif via == "throw":
                 self.model.systems.execute_systems(throw_error=True)
+            elif via == "throw1":          # a truthy flag that is not the literal True
+                self.model.systems.execute_systems(throw_error=1)
             else:
                 raise AssertionError(via)
         except Exception as e:  # noqa: BLE001
             exc = e
-        self.events.append({"op": "exec_end", "throw": via == "throw", "out": outcome(exc), "obs": self.obs()})
+        self.events.append({"op": "exec_end", "throw": via in ("throw", "throw1"), "out": outcome(exc), "obs": self.obs()})
 
     def lookup(self, sid, strict):
         exc = None
@@ -277,7 +281,7 @@ def random_program(rng, *, n_ids=5, prios=(-2, -1, 0, 1, 2), length=30, p_mut=0.
         elif r < 0.62 and multi:
             prog.append(["reject", rng.choice(sorted(SchedWorld.BAD_N))])
         else:
-            via = rng.choice(["execute", "execute", "execute_systems", "throw"])
+            via = rng.choice(["execute", "execute", "execute_systems", "throw", "throw1"])
             n = rng.choice([1, 1, 2, 3, 4]) if (via == "execute" and multi) else 1
             prog.append(["exec", n, via])
     return prog
